@@ -23,8 +23,8 @@ PROPS = {
    'nontrivial': lambda r: r.get('allocs', 0) >= 20 and r.get('frees', 0) >= 5, 'distinct_by': 'api+sched',
  },
  'C02': {
-   'families': [('c02_pingpong', 5, ALL), ('c02_ownercollect', 3, ALL), ('c02_manypushers', 3, ALL), ('c02_hugeremote', 2, ALL), ('c02_forceabandon', 3, ALL), ('c09_collect_race', 2, ALL), ('c09_adopt_race', 2, ALL)],
-   'runs': {'quick': 3300, 'thorough': 150000},
+   'families': [('c02_pingpong', 5, ALL), ('c02_ownercollect', 3, ALL), ('c02_manypushers', 3, ALL), ('c02_hugeremote', 2, ALL), ('c02_forceabandon', 3, ALL), ('c09_collect_race', 2, ALL), ('c09_adopt_race', 2, ALL), ('c10_concurrent', 2, ALL)],
+   'runs': {'quick': 3630, 'thorough': 165000},
    'rule': 'non-trivial = at least one context switch inside mi_free_block_delayed_mt (between its CASes), _mi_page_thread_free_collect or _mi_heap_delayed_free_partial; distinct = distinct (API result hash, hash of the (thread, site) sequence at context switches inside hot functions)',
    'nontrivial': lambda r: sw(r, 'switch_in_free_mt', 'switch_in_tf_collect', 'switch_in_delayed_partial') > 0,
    'must_reach': ['switch_in_free_mt', 'switch_in_tf_collect', 'free_mt_cas_retry', 'tf_collect_cas_retry', 'delayed_freeing_observed', 'spurious_cas_injected'],
